@@ -1,5 +1,7 @@
 package node
 
+import "fmt"
+
 type SymTbl []map[string]int
 
 // STRewriter is a recursive node transformation that resolves local and
@@ -23,8 +25,13 @@ func (f Function) STRewrite(symTbl SymTbl) Type {
 
 	// assign parameters to scope
 	for i, t := range f.Parameters.Elems {
-		name := t.(Name)
-		scope[string(name)] = i
+		name := string(t.(Name))
+		if j, ok := scope[name]; ok {
+			// a repeated name refers to its last occurrence, the shadowed
+			// parameter keeps its slot under a key no name can have
+			scope[fmt.Sprintf("%s %d", name, j)] = j
+		}
+		scope[name] = i
 	}
 
 	// push scope
